@@ -965,18 +965,18 @@ def rule_LB(run: Run) -> RuleResult:
                         and (e.op or "").split(".")[-1] not in ("__init__",):
                     res.add(f"labrea.overload.Overloaded.{op}:stores a switch in {e.text}", False, e.file, e.line,
                             f"{e.text} = <switch built from the table at that moment>: later register() calls are invisible until it is rebuilt, and the unlocked check-build-store races with register()", nec)
-    # each op reaches the builder on every returning path
+    # each operation goes through a freshly built switch on every returning path (read off the paths: whatever private method, property
+    # or shared base class does the forwarding, the operation ends up issued on a Switch term constructed during this very call)
     bnames = {b[0] for b in builders}
+    from .facts import normal as _normal
     for op in ("evaluate", "validate", "keys", "explain"):
-        fn = ov.methods.get(op)
-        if fn is None:
+        fm = ov.find_method(op)
+        if fm is None:
             raise AnalysisError(f"Overloaded.{op} not found")
-        # directly or through private methods the operation delegates to
-        reach = any(isinstance(n, ast.Attribute) and astu.is_self_attr(n) and n.attr in bnames
-                    for mn, mfn in astu.reachable_self_methods(ov, [op]).items() if mn == op or mn not in ("evaluate", "validate", "keys", "explain")
-                    for n in ast.walk(mfn))
-        res.add(f"labrea.overload.Overloaded.{op}:uses the freshly built switch", reach, f, fn.lineno,
-                f"{op} reads self.{sorted(bnames)}" if reach else f"{op} does not go through {sorted(bnames)}", nec)
+        ps_ = _normal(run.paths(ov, op))
+        reach = bool(ps_) and all(any(e.kind in ("unfold", "op") and e.op == op and isinstance(e.target, New) and e.target.cls.name == "Switch" for e in p.events) for p in ps_)
+        res.add(f"labrea.overload.Overloaded.{op}:uses the freshly built switch", reach, fm[0].module.relpath, fm[1].lineno,
+                f"{op} is issued on the switch built by {sorted(bnames)}" if reach else f"a returning path of {op} does not go through a switch built during the call", nec)
     return res
 
 
